@@ -3,6 +3,7 @@ package ads
 
 import (
 	"bytes"
+	"sync"
 
 	"verifrt"
 
@@ -359,5 +360,139 @@ func H_C09_set() {
 			}
 		}
 		roots[present] = root
+	}
+}
+
+// H_C09_reinsert: one instance sets a key, deletes it and sets it again (the same or another symbolic value), with
+// an optional Commit after each step, then commits and is re-opened: the stored trie must contain everything the
+// final contents need (a delete followed by a re-insert of identical nodes included). Six or more operations of
+// H_C09_map, beyond its bound.
+//
+//verif:h prop=C09 p.maxlen=1/2 cover=same-value,other-value,commit-between solverms=5000 portfolio=15 runs=3000000 timeout=900/900 steps=3000000
+func H_C09_reinsert() {
+	store := c09Store()
+	m := c09NewMap(store)
+	model := &c09Model{}
+	maxLen := verifrt.Param("maxlen", 1)
+	other := verifrt.Choose("otherKey", 2) == 1
+	if other {
+		w := c09Value("w", maxLen)
+		verifrt.Assert(m.Set(c09Keys[1], w) == nil, "Set failed on a working store")
+		model.present[1], model.val[1] = true, w
+	}
+	v1 := c09Value("v1", maxLen)
+	verifrt.Assert(m.Set(c09Keys[0], v1) == nil, "Set failed on a working store")
+	c1 := verifrt.Choose("commit1", 2) == 1
+	if c1 {
+		verifrt.Assert(m.Commit() == nil, "Commit failed on a working store")
+	}
+	del, err := m.Delete(c09Keys[0])
+	verifrt.Assert(err == nil && del, "Delete does not report whether the key was present")
+	c2 := verifrt.Choose("commit2", 2) == 1
+	if c2 {
+		verifrt.Assert(m.Commit() == nil, "Commit failed on a working store")
+	}
+	if c1 && c2 {
+		verifrt.Cover("commit-between")
+	}
+	var v2 c09Val
+	if verifrt.Choose("same", 2) == 1 {
+		verifrt.Cover("same-value")
+		v2 = append(c09Val{}, v1...)
+	} else {
+		verifrt.Cover("other-value")
+		v2 = c09Value("v2", maxLen)
+	}
+	verifrt.Assert(m.Set(c09Keys[0], v2) == nil, "Set failed on a working store")
+	model.present[0], model.val[0] = true, v2
+	before := m.Root()
+	verifrt.Assert(m.Commit() == nil, "Commit failed on a working store")
+	c09Check(m, model)
+	m2 := c09NewMap(store)
+	verifrt.Assert(m2.WasRestoredFromStorage(), "a map re-opened after a Commit does not claim to be restored")
+	verifrt.Assert(m2.Root() == before, "a re-opened map reports a different root than the committed one")
+	c09Check(m2, model)
+	verifrt.Assert(m2.Root() == c09Canonical(model), "the root of a re-opened map differs from the root of a fresh map with the same contents")
+}
+
+// H_C09_conc: the map and the set are documented as thread-safe: two concurrent mutations of one instance (the same
+// element added twice, or an Add/Set racing with a Delete of the same key) leave contents, Size and Root as one of
+// the two serial orders does, also after Commit and re-opening.
+//
+//verif:h prop=C09 preempt=2/2 cover=set-add-add,set-add-delete,map-set-set runs=3000000 timeout=900/900 steps=3000000
+func H_C09_conc() {
+	store := mapdb.NewMapDB()
+	mode := verifrt.Choose("mode", 3)
+	var wg sync.WaitGroup
+	wg.Add(2)
+	switch mode {
+	case 0, 1:
+		s := c09NewSet(store)
+		if mode == 1 {
+			verifrt.Assert(s.Add(c09Keys[0]) == nil, "Add failed on a working store")
+		}
+		_ = s.Add(c09Keys[1])
+		deleted := false
+		go func() {
+			defer wg.Done()
+			verifrt.MustFinish()
+			_ = s.Add(c09Keys[0])
+		}()
+		go func() {
+			defer wg.Done()
+			verifrt.MustFinish()
+			if mode == 0 {
+				_ = s.Add(c09Keys[0])
+			} else {
+				deleted, _ = s.Delete(c09Keys[0])
+			}
+		}()
+		verifrt.MustFinish()
+		wg.Wait()
+		has, err := s.Has(c09Keys[0])
+		verifrt.Assert(err == nil, "Set.Has failed")
+		if mode == 0 {
+			verifrt.Cover("set-add-add")
+			verifrt.Assert(has, "Set.Has disagrees with the model")
+		} else {
+			verifrt.Cover("set-add-delete")
+			verifrt.Assert(deleted, "Set.Delete does not report whether the key was present")
+		}
+		want := 1
+		if has {
+			want = 2
+		}
+		verifrt.Assert(s.Size() == want, "Set.Size differs from the number of members")
+		ref := c09NewSet(mapdb.NewMapDB())
+		_ = ref.Add(c09Keys[1])
+		if has {
+			_ = ref.Add(c09Keys[0])
+		}
+		verifrt.Assert(s.Root() == ref.Root(), "the root differs from the root of a fresh set with the same contents (root depends on the history)")
+		verifrt.Assert(s.Commit() == nil, "Commit failed on a working store")
+		s2 := c09NewSet(store)
+		verifrt.Assert(s2.Size() == want && s2.Root() == ref.Root(), "a re-opened set differs from the committed one")
+	default:
+		verifrt.Cover("map-set-set")
+		m := c09NewMap(store)
+		va, vb := c09Val{1}, c09Val{2}
+		go func() {
+			defer wg.Done()
+			verifrt.MustFinish()
+			_ = m.Set(c09Keys[0], va)
+		}()
+		go func() {
+			defer wg.Done()
+			verifrt.MustFinish()
+			_ = m.Set(c09Keys[0], vb)
+		}()
+		verifrt.MustFinish()
+		wg.Wait()
+		v, exists, err := m.Get(c09Keys[0])
+		verifrt.Assert(err == nil && exists && (bytes.Equal(v, va) || bytes.Equal(v, vb)), "Get/Has disagree with the plain map model")
+		verifrt.Assert(m.Size() == 1, "Size differs from the number of keys in the model")
+		model := &c09Model{}
+		model.present[0], model.val[0] = true, v
+		verifrt.Assert(m.Root() == c09Canonical(model), "the root differs from the root of a fresh map with the same contents (root depends on the history)")
 	}
 }
